@@ -131,9 +131,10 @@ def clause2_atomic(ctx, P, cg):
     CAP = Q.enum(P, "CONFIG_MAX_WRITE_BUFFER_SIZE")
     ci = wv.calls("copy_iovec_to_write_buffer")
     sw = wv.calls("socket_writev_with_prefix")
-    if len(ci) != 1 or len(sw) != 1:
-        raise AnalysisBroken("buffered_socket_writev: expected one gathered write and one queueing call")
-    ci, sw = ci[0], sw[0]
+    if len(ci) < 1 or len(sw) != 1:
+        raise AnalysisBroken("buffered_socket_writev: expected one gathered write and at least one queueing call")
+    cis, sw = ci, sw[0]
+    ci = cis[0]
     # X: the value compared with the write result in the 'everything was sent' test
     total = None
     for v in Q.path_views(ctx, P, wv):
@@ -158,7 +159,7 @@ def clause2_atomic(ctx, P, cg):
             ph = wv.insts[k[1]]
             vals = [P.term(wv, x) for x, _ in ph.inc]
             return ("const", 0) in vals and any(t[0] == "call" and t[3] == sw.id for t in vals)
-        guard_ok = Q.must_pass(P, wv, ci.block, whole_rest_fits)
+        guard_ok = all(Q.must_pass(P, wv, c.block, whole_rest_fits) for c in cis)   # EVERY queueing site is behind the check
     # the helper's own tear path
     cv = P.fn("buffered_socket.c:copy_iovec_to_write_buffer")
     tear = None
@@ -183,7 +184,7 @@ def clause2_atomic(ctx, P, cg):
     # a -1 from the queueing step is passed on (never 'success')
     bad = None
     for v in Q.path_views(ctx, P, wv):
-        if v.has_atom(lambda a, p: a[0] == "cmp" and a[2][0] == "call" and a[2][3] == ci.id and a[3] == ("const", 0) and (a[1] if p else Q.negate_pred(a[1])) == "slt"):
+        if v.has_atom(lambda a, p: a[0] == "cmp" and a[2][0] == "call" and a[2][3] in [c.id for c in cis] and a[3] == ("const", 0) and (a[1] if p else Q.negate_pred(a[1])) == "slt"):
             if v.ret_const() is None or v.ret_const() >= 0:
                 bad = v
     ctx.ob("C10.2 R-COMMIT", wv, "refusal-reported", bad is None, "a refused frame is reported as sent")
